@@ -1,0 +1,11 @@
+//go:build !verif
+
+// Package verifhook provides yield points used by the external verification harness.
+// Without the `verif` build tag every function is an empty, inlinable no-op.
+package verifhook
+
+// Enabled reports whether the hooks are compiled in.
+const Enabled = false
+
+// Yield is a no-op without the verif build tag.
+func Yield(string) {}
